@@ -208,6 +208,11 @@ TABLE["C07"][2].extend([
    ("conjugate_m_twice", "C07_second_conjugation_defined", "the second conjugation never fails once the first succeeded"),
 ])
 TABLE["C07"] = (TABLE["C07"][0], TABLE["C07"][1] + ["Link2"], TABLE["C07"][2])
+TABLE["C09"][2].extend([
+   ("differentiate_structure_eq", "C09_differentiate_result", "whenever differentiate_m returns (operand well-formed), the result is smooth and decomposable, has exactly the scope of the operand, one output per (output, variable of its scope) plus the copy, all outputs valid nodes, and every node refers to earlier nodes"),
+   ("differentiate_output_scopes", "C09_differentiate_output_blocks", "the outputs split into one block per output o of the operand, of length |scope(o)|+1, every element having the scope of o"),
+])
+TABLE["C09"] = (TABLE["C09"][0], TABLE["C09"][1] + ["DiffStruct"], TABLE["C09"][2])
 
 if __name__ == "__main__":
     for pid in (sys.argv[1:] or TABLE):
